@@ -6,6 +6,10 @@ pub fn run<F: Future>(f: F) -> F::Output {
     let rt = tokio::runtime::Builder::new_current_thread()
         .enable_io()
         .enable_time()
+        // `tokio::select!` polls its branches starting from a random one; with a fixed seed the
+        // order is a deterministic function of the execution, so replays cannot diverge when two
+        // timers of the subject fall due at the same instant
+        .rng_seed(tokio::runtime::RngSeed::from_bytes(b"discv5-verif"))
         .build()
         .expect("runtime");
     let out = rt.block_on(f);
